@@ -74,7 +74,7 @@ class CFG:
         if start_symbol is not None:
             self._variables.add(start_symbol)
         self._productions = productions or set()
-        self._productions = self._productions
+        self._productions = set(self._productions)
         for production in self._productions:
             self.__initialize_production_in_cfg(production)
         self._normal_form = None
